@@ -25,6 +25,8 @@ fn main() {
             "C02" | "C09" | "C14" if v["subject"] == "DeferredReader" => reader_mc::replay_file(&v),
             "C11" | "C14" if v["subject"] == "DeferredWriter" => writer_mc::replay_file(&v),
             "C13" => c13::replay(&v),
+            "C14" if v["subject"] == "digit scanners" => c13::replay(&v),
+            "C14" if v["subject"] == "text scanners" => c16::replay(&v),
             "C15" => c15::replay(&v),
             "C16" => c16::replay(&v),
             other => {
@@ -61,7 +63,9 @@ fn main() {
         "C14" => {
             reader_mc::run(reader_mc::Mode::C14, cli.tier, &mut report);
             writer_mc::run(writer_mc::Mode::C14, cli.tier, &mut report);
-            format!("READER: {} || WRITER: {}", reader_mc::RULE_C02, writer_mc::RULE)
+            c13::stale_window_family(cli.tier, &mut report);
+            c16::displaced_family(cli.tier, &mut report);
+            format!("READER: {} || WRITER: {} || TEXT SCANNERS: tabs_or_spaces / newline / next_newline / fixed on every short string with a displaced cursor (the first refill inside the scan realigns the buffer), all read schedules, against the reference offsets and exact look-ahead || DIGIT SCANNERS: every short string x offset x 1..=8 bytes buffered with stale digits right behind the buffered window (the buffer was realigned by the refill that delivered them) x rest at once / byte-wise x 4 scanners x 3 types; the result must be the reference result for the text alone (a raw load beyond the buffered data changes it)", reader_mc::RULE_C02, writer_mc::RULE)
         }
         "C13" => {
             c13::run(cli.tier, &mut report);
